@@ -1619,9 +1619,11 @@ def run(tier="quick", seed=0):
             go({"k": "bed_read", "rows": [[str(v), str(w)] for v, w in zip(nn, b)]})
         go({"k": "parse", "texts": [str(v).zfill(19) for v in NP if v >= 0], "path": "2d"})
         step = 1 if thorough else 5
-        for v in NP[::step]:
-            go({"k": "bed_write", "starts": [v], "stops": [-v]})
+        for i, v in enumerate(NP[::step]):
             go({"k": "parse", "texts": [str(v)], "path": "ragged"})
+            if thorough and i % 4 and abs(10 ** len(str(abs(v))) - abs(v)) > 9 and abs(v) - 10 ** (len(str(abs(v))) - 1) > 9:
+                continue          # thorough: pairs and one-line files for every 4th value and for all within 9 of the power
+            go({"k": "bed_write", "starts": [v], "stops": [-v]})
             for u in small[:3]:
                 go({"k": "fmt", "vals": [u, v]})
                 go({"k": "fmt", "vals": [v, u]})
@@ -1712,7 +1714,10 @@ def run(tier="quick", seed=0):
                     # the histories in which numbers are formatted from a selection get the larger selection sets
                     formats = hist in ("fresh", "fresh-from-selected-columns", "read-set")
                     if thorough:
-                        level = (2 if (fmt == "bed12" or formats) else 1) if n == 4 or (fmt == "bed12" and formats) else 0
+                        if n == 4:
+                            level = 2 if (fmt == "bed12" and formats) or hist == "fresh" else 1
+                        else:
+                            level = 1 if (fmt == "bed12" and formats) else 0
                     else:
                         level = 1 if (fmt == "bed12" and formats and n == 4) else 0
                         if fmt != "bed12" and hist in ("read", "read-touch") and n != 6:
